@@ -31,6 +31,7 @@ type c07Case struct {
 	Kind  string    `json:"value_kind"` // int | struct | str2str
 	Loads []c07Load `json:"loads"`
 	Fresh bool      `json:"never_loaded,omitempty"`
+	Ctor  string    `json:"constructed,omitempty"` // "" New()/NewStr2Str() | "zero" the zero value (not initialised) | "ctor" the first load goes through New*FromSlice / New*FromMap
 	Real  bool      `json:"real_hash,omitempty"`       // the repository's real (seeded) hash instead of the harness-owned one
 	All   bool      `json:"probe_all_slots,omitempty"` // absent probes hashed to every slot (thorough) or to {0,1,last}
 	// formula part
@@ -264,6 +265,61 @@ func c07New(kind string) c07Map {
 	return c07Int{strmap.New[int]()}
 }
 
+// c07Zero returns the not-initialised (zero) value of the map type.
+func c07Zero(kind string) c07Map {
+	switch kind {
+	case "struct":
+		return c07St{new(strmap.StrMap[c07Struct])}
+	case "str2str":
+		return c07S2S{new(strmap.Str2Str)}
+	}
+	return c07Int{new(strmap.StrMap[int])}
+}
+
+// c07Construct builds a loaded map through the constructor functions (which panic on failure).
+func c07Construct(kind string, kk []string, ids []int, via string) c07Map {
+	switch kind {
+	case "struct":
+		vv := make([]c07Struct, len(ids))
+		for i, id := range ids {
+			vv[i] = mkStruct(id)
+		}
+		if via == "map" {
+			mm := map[string]c07Struct{}
+			for i := range kk {
+				mm[kk[i]] = vv[i]
+			}
+			return c07St{strmap.NewFromMap(mm)}
+		}
+		return c07St{strmap.NewFromSlice(kk, vv)}
+	case "str2str":
+		vv := make([]string, len(ids))
+		for i, id := range ids {
+			vv[i] = s2sVal(id)
+		}
+		if via == "map" {
+			mm := map[string]string{}
+			for i := range kk {
+				mm[kk[i]] = vv[i]
+			}
+			return c07S2S{strmap.NewStr2StrFromMap(mm)}
+		}
+		return c07S2S{strmap.NewStr2StrFromSlice(kk, vv)}
+	}
+	vv := make([]int, len(ids))
+	for i, id := range ids {
+		vv[i] = id*7 + 1
+	}
+	if via == "map" {
+		mm := map[string]int{}
+		for i := range kk {
+			mm[kk[i]] = vv[i]
+		}
+		return c07Int{strmap.NewFromMap(mm)}
+	}
+	return c07Int{strmap.NewFromSlice(kk, vv)}
+}
+
 func keyOf(l *c07Load, i int) string {
 	if l.Gen > 0 {
 		return fmt.Sprintf("k%d", l.Keys[i])
@@ -301,6 +357,13 @@ func c07Hist(c *mc.Ctx, k c07Case, _ func(slots int) []int) {
 	step := -1
 	pi := mc.Try(func() {
 		m := c07New(k.Kind)
+		if k.Ctor == "zero" {
+			m = c07Zero(k.Kind)
+		}
+		variant0 := 0
+		if len(k.Loads) > 0 {
+			variant0 = k.Loads[0].Variant
+		}
 		probeAll := func(when string, slots int) bool {
 			if got := m.length(); got != len(model) {
 				bad("len", "%s: Len() = %d, want %d", when, got, len(model))
@@ -329,7 +392,7 @@ func c07Hist(c *mc.Ctx, k c07Case, _ func(slots int) []int) {
 				}
 				for _, s := range alts {
 					if !present {
-						table[p] = hashFor(s, slots, k.Loads[0].Variant)
+						table[p] = hashFor(s, slots, variant0)
 					}
 					gid, ok := m.get(p)
 					if ok != present {
@@ -401,7 +464,9 @@ func c07Hist(c *mc.Ctx, k c07Case, _ func(slots int) []int) {
 			for i := range kk {
 				table[kk[i]] = hashFor(l.Slots[i], ns, l.Variant)
 			}
-			if err := m.load(kk, ids, l.Via); err != nil {
+			if si == 0 && k.Ctor == "ctor" && !k.Fresh {
+				m = c07Construct(k.Kind, kk, ids, l.Via)
+			} else if err := m.load(kk, ids, l.Via); err != nil {
 				bad("load-error", "load #%d failed: %v", si, err)
 				return
 			}
@@ -475,6 +540,9 @@ func c07Run(c *mc.Ctx) {
 	// (1) never-loaded instances
 	for _, kd := range kinds {
 		c07Hist(c, c07Case{Kind: kd, Fresh: true, All: th, Loads: []c07Load{{Via: "fail"}}}, alpha)
+		// the zero value ("not initialised", which the repository's own test loads into for Str2Str) was never loaded
+		// either: queries report every key absent.  Loading into a zero StrMap[V] is not claimed (it has no hash seed).
+		c07Hist(c, c07Case{Kind: kd, Ctor: "zero", Fresh: true, All: th}, alpha)
 	}
 	// (2) all key sets of size 0..maxSet x every slot assignment x hash realisations
 	var nsets int64
@@ -553,12 +621,20 @@ func c07Run(c *mc.Ctx) {
 						c.Distinct("hist", a, b, d, kd, fresh)
 						c07Hist(c, c07Case{Kind: kd, All: th, Loads: ls, Fresh: fresh}, alpha)
 						c07Hist(c, c07Case{Kind: kd, Real: true, Loads: ls, Fresh: fresh}, alpha)
+						if !fresh && ls[0].Via != "fail" { // the first load through New*FromSlice / New*FromMap
+							c07Hist(c, c07Case{Kind: kd, Ctor: "ctor", All: th, Loads: ls}, alpha)
+							c07Hist(c, c07Case{Kind: kd, Ctor: "ctor", Real: true, Loads: ls}, alpha)
+						}
+						if kd == "str2str" { // a not-initialised Str2Str loads like a constructed one
+							c07Hist(c, c07Case{Kind: kd, Ctor: "zero", All: th, Loads: ls, Fresh: fresh}, alpha)
+							c07Hist(c, c07Case{Kind: kd, Ctor: "zero", Real: true, Loads: ls, Fresh: fresh}, alpha)
+						}
 					}
 				}
 			}
 		}
 	}
-	c.Done("all sequences of <= 3 loads over 8 load specs (empty, 1, 2 colliding in the last slot, 3 spread, 10 all-colliding, 5 mixed via map, 6 mixed via slices, failing) x 3 value kinds, probed after every step, also starting from a never-loaded instance")
+	c.Done("all sequences of <= 3 loads over 8 load specs (empty, 1, 2 colliding in the last slot, 3 spread, 10 all-colliding, 5 mixed via map, 6 mixed via slices, failing) x 3 value kinds, probed after every step, also starting from a never-loaded instance, with the first load through the New*From* constructors, and (Str2Str) starting from the zero value")
 	// (4) table sizes: every n in 0..300 and around every row of the prime table up to 10^5 keys, formula hashes
 	var sizes []int
 	for n := 0; n <= 300; n++ {
